@@ -760,3 +760,236 @@ func c02r5(rc *core.RC) {
 		rc.Check(no, key+"/kind "+k, fd.Pos(), "fields of kind %s (after one pointer) do not take the ,string option: their value is not expected as a quoted text", k)
 	}
 }
+
+// ---- C02.R6 a token reader that reports null as a nil slice has that case tested by its callers ----
+
+// The byte-level readers of the scalar decoders (decodeByte / decodeStreamByte of the int, uint,
+// float, number, string and bytes decoders) return the token text, and nil for the literal null.
+// encoding/json leaves a scalar destination unchanged for null; a caller that goes on to parse the
+// nil slice fails (strconv on "") or stores a zero value. Every caller of such a reader must test the
+// result against nil.
+func c02r6(rc *core.RC) {
+	p := rc.P
+	// readers: decoder functions whose first result is []byte and that have a success return with a nil first result
+	readers := map[*types.Func]bool{}
+	for _, fd := range p.Funcs("decoder") {
+		if fd.Body == nil || fd.Type.Results == nil || len(fd.Type.Results.List) < 2 {
+			continue
+		}
+		info := p.Info(fd)
+		fo, _ := info.Defs[fd.Name].(*types.Func)
+		if fo == nil {
+			continue
+		}
+		sig := fo.Type().(*types.Signature)
+		if sl, ok := sig.Results().At(0).Type().(*types.Slice); !ok || !isByte(sl.Elem()) {
+			continue
+		}
+		if !core.IsErrorType(sig.Results().At(sig.Results().Len() - 1).Type()) {
+			continue
+		}
+		nullRet := false
+		ast.Inspect(fd.Body, func(m ast.Node) bool {
+			if _, isLit := m.(*ast.FuncLit); isLit {
+				return false
+			}
+			if r, ok := m.(*ast.ReturnStmt); ok && len(r.Results) == sig.Results().Len() {
+				if core.IsNilIdent(info, r.Results[0]) && core.IsNilIdent(info, r.Results[len(r.Results)-1]) {
+					nullRet = true
+				}
+			}
+			return true
+		})
+		if nullRet {
+			readers[fo] = true
+		}
+	}
+	if len(readers) < 8 {
+		rc.Unknown("decoder/null-reporting-readers", token.NoPos, "found %d token readers that return nil for null (12 confirmed)", len(readers))
+	}
+	n := 0
+	for _, fd := range p.Funcs("decoder") {
+		if fd.Body == nil {
+			continue
+		}
+		info := p.Info(fd)
+		fn := p.FuncName(fd)
+		k := 0
+		ast.Inspect(fd.Body, func(m ast.Node) bool {
+			as, ok := m.(*ast.AssignStmt)
+			if !ok || len(as.Rhs) != 1 || len(as.Lhs) < 2 {
+				return true
+			}
+			call, ok := core.Unparen(as.Rhs[0]).(*ast.CallExpr)
+			if !ok {
+				return true
+			}
+			callee := core.Callee(info, call)
+			if callee == nil || !readers[callee] {
+				return true
+			}
+			obj := core.ObjOf(info, as.Lhs[0])
+			if obj == nil {
+				return true
+			}
+			n++
+			k++
+			rc.CallSites++
+			rc.Touch(fn)
+			key := fmt.Sprintf("%s/token#%d null-tested (%s)", fn, k, callee.Name())
+			// the function is itself a reader that passes the token on unchanged: its callers are checked
+			passes := false
+			tested := false
+			ast.Inspect(fd.Body, func(x ast.Node) bool {
+				switch y := x.(type) {
+				case *ast.BinaryExpr:
+					if y.Op == token.EQL || y.Op == token.NEQ {
+						if (core.ObjOf(info, y.X) == obj && core.IsNilIdent(info, y.Y)) || (core.ObjOf(info, y.Y) == obj && core.IsNilIdent(info, y.X)) {
+							tested = true
+						}
+					}
+				case *ast.ReturnStmt:
+					if len(y.Results) > 0 && core.ObjOf(info, y.Results[0]) == obj {
+						if fo, _ := info.Defs[fd.Name].(*types.Func); fo != nil && readers[fo] {
+							passes = true
+						}
+					}
+				}
+				return true
+			})
+			quoteFirst := false
+			if path := core.PathTo(fd.Body, as); len(path) >= 2 {
+				if blk, isBlock := path[len(path)-2].(*ast.BlockStmt); isBlock {
+					for _, st := range blk.List {
+						if st == ast.Stmt(as) {
+							break
+						}
+						ifs, isIf := st.(*ast.IfStmt)
+						if !isIf || len(ifs.Body.List) == 0 {
+							continue
+						}
+						if _, rets := ifs.Body.List[len(ifs.Body.List)-1].(*ast.ReturnStmt); !rets {
+							continue
+						}
+						be, isBin := core.Unparen(ifs.Cond).(*ast.BinaryExpr)
+						if !isBin || be.Op != token.NEQ {
+							continue
+						}
+						ix, isIndex := core.Unparen(be.X).(*ast.IndexExpr)
+						if v, isConst := core.ConstInt(info, be.Y); !isIndex || !isConst || v != '"' {
+							continue
+						}
+						for _, a := range call.Args {
+							if o := core.ObjOf(info, a); o != nil && o == core.ObjOf(info, ix.Index) {
+								quoteFirst = true
+							}
+						}
+					}
+				}
+			}
+			switch {
+			case quoteFirst:
+				rc.OK(key, call.Pos(), "the call is made only when the byte at the cursor is a quote: the reader cannot meet null")
+			case tested:
+				rc.OK(key, call.Pos(), "the token is compared with nil")
+			case passes:
+				rc.OK(key, call.Pos(), "the token is handed on unchanged by a function that is itself such a reader")
+			default:
+				rc.Bad(key, call.Pos(), "%s returns nil for the literal null, and this caller never compares the token with nil: null is parsed as if it were text", callee.Name())
+			}
+			return true
+		})
+	}
+	if n < 15 {
+		rc.Unknown("decoder/token-reader-calls", token.NoPos, "found %d calls of null-reporting token readers (20 confirmed)", n)
+	}
+}
+
+func isByte(t types.Type) bool {
+	b, ok := t.Underlying().(*types.Basic)
+	return ok && b.Kind() == types.Uint8
+}
+
+// ---- C02.R7 a float32 destination is parsed at 32 bits ----
+
+// strconv.ParseFloat(s, 64) followed by float32(v) turns 1e39 into +Inf without an error;
+// encoding/json parses with the destination's bit size and reports the range error. The float
+// decoder must hand ParseFloat a bit size taken from the decoder value, and the decoder compiled
+// for float32 must carry 32.
+func c02r7(rc *core.RC) {
+	p := rc.P
+	// (1) ParseFloat in floatDecoder methods
+	n := 0
+	for _, fd := range p.Funcs("decoder") {
+		if fd.Body == nil || fd.Recv == nil || !strings.Contains(core.RecvString(fd.Recv.List[0].Type), "floatDecoder") {
+			continue
+		}
+		info := p.Info(fd)
+		fn := p.FuncName(fd)
+		k := 0
+		ast.Inspect(fd.Body, func(m ast.Node) bool {
+			c, ok := m.(*ast.CallExpr)
+			if !ok || core.CalleeName(info, c) != "strconv.ParseFloat" || len(c.Args) != 2 {
+				return true
+			}
+			n++
+			k++
+			rc.Touch(fn)
+			key := fmt.Sprintf("%s/ParseFloat#%d bit-size-from-decoder", fn, k)
+			_, isConst := core.ConstInt(info, c.Args[1])
+			fromRecv := false
+			ast.Inspect(c.Args[1], func(x ast.Node) bool {
+				if id, isIdent := x.(*ast.Ident); isIdent && len(fd.Recv.List[0].Names) == 1 && core.ObjOf(info, id) == info.Defs[fd.Recv.List[0].Names[0]] {
+					fromRecv = true
+				}
+				return true
+			})
+			rc.Check(!isConst && fromRecv, key, c.Pos(), "the bit size handed to ParseFloat (%s) comes from the decoder value, not a constant", core.Src(p.Fset, c.Args[1]))
+			return true
+		})
+	}
+	if n < 2 {
+		rc.Unknown("decoder.floatDecoder/ParseFloat", token.NoPos, "found %d ParseFloat calls in floatDecoder (2 confirmed)", n)
+	}
+	// (2) the float32 constructor marks its decoder
+	fd := p.Func("decoder", "compileFloat32")
+	key := "decoder.compileFloat32/float32-decoder-is-32-bit"
+	if fd == nil {
+		rc.Unknown(key, token.NoPos, "not found")
+		return
+	}
+	rc.Touch("decoder.compileFloat32")
+	info := p.Info(fd)
+	marks := false
+	ast.Inspect(fd.Body, func(m ast.Node) bool {
+		switch x := m.(type) {
+		case *ast.AssignStmt:
+			for i, l := range x.Lhs {
+				if f := core.FieldOf(info, l); f != nil && f.Name() == "bitSize" && i < len(x.Rhs) {
+					if v, ok := core.ConstInt(info, x.Rhs[i]); ok && v == 32 {
+						marks = true
+					}
+				}
+			}
+		case *ast.KeyValueExpr:
+			if id, ok := x.Key.(*ast.Ident); ok && id.Name == "bitSize" {
+				if v, ok := core.ConstInt(info, x.Value); ok && v == 32 {
+					marks = true
+				}
+			}
+		case *ast.CallExpr:
+			// a constructor that takes the bit size
+			for _, a := range x.Args {
+				if v, ok := core.ConstInt(info, a); ok && v == 32 {
+					if tv, has := info.Types[a]; has {
+						if b, isBasic := tv.Type.Underlying().(*types.Basic); isBasic && b.Info()&types.IsInteger != 0 {
+							marks = true
+						}
+					}
+				}
+			}
+		}
+		return true
+	})
+	rc.Check(marks, key, fd.Pos(), "the decoder built for float32 is given the bit size 32")
+}
